@@ -1107,6 +1107,8 @@ def main():
     cli = build_cli()
     shutil.rmtree(W, ignore_errors=True)
     os.makedirs(os.path.join(W, "runs"))
+    import atexit
+    atexit.register(lambda: shutil.rmtree(W, ignore_errors=True))     # scratch projects never outlive the check
     templates = {"good": make_template("good", False), "broken": make_template("broken", True)}
     timings = {"build_s": round(time.time() - t_start, 1)}
 
@@ -1218,7 +1220,13 @@ def main():
         for i in cpf:
             log("CLI-PROPFAIL", i, ccases[i]["cls"], decode_bits(fails[i], FAIL_NAMES))
     reported = 0
+    # one case of every class first, so that the reported replays show distinct defects
+    firsts, rest, seen_cls = [], [], set()
     for i in cpf:
+        k = ccases[i]["cls"].split(":")[0]
+        (rest if k in seen_cls else firsts).append(i)
+        seen_cls.add(k)
+    for i in firsts + rest:
         fb = decode_bits(fails[i], FAIL_NAMES)
         f_ = finding_for(known, ccases[i]["cls"], fb)
         if f_:
